@@ -1,6 +1,7 @@
 package main
 
 import (
+	"encoding/json"
 	"fmt"
 	"gopkg.in/src-d/hercules.v10/verifharness/hv"
 	"math/rand"
@@ -137,16 +138,61 @@ func main() {
 			parts = append(parts, join(o))
 		}
 		fmt.Fprintf(wo, "merge %s\n", strings.Join(parts, " "))
+		// Go-side statement of C07 (oracle): per line the earliest copy with the smallest real tick, else the merge
+		// commit's tick with one report; unequal lengths are refused
+		caseJSON := func() string {
+			c, _ := json.Marshal(map[string]interface{}{"day": day, "mine": mine, "others": others})
+			return string(c)
+		}
+		unequal := false
+		for _, o := range others {
+			if len(o) != n {
+				unequal = true
+			}
+		}
 		func() {
 			defer func() {
 				if recover() != nil {
 					fmt.Fprintln(wi, "panic")
+					if !unequal {
+						hv.Fail("merge-pointwise", caseJSON(), "copies of equal length were refused")
+					}
 				}
 			}()
 			counting = true
 			f.Merge(day, ofs...)
 			counting = false
 			res := flat(f)
+			if unequal {
+				hv.Fail("merge-pointwise", caseJSON(), "copies of different length were merged")
+			} else {
+				wantReports := 0
+				for i := 0; i < n; i++ {
+					best, found := 0, false
+					for _, c := range append([][]int{mine}, others...) {
+						v := c[i]
+						if v&mark == mark {
+							continue
+						}
+						if !found || v&mark < best&mark {
+							best, found = v, true
+						}
+					}
+					if !found {
+						best = day
+						wantReports++
+					}
+					if i >= len(res) || res[i] != best {
+						hv.Fail("merge-pointwise", caseJSON(), fmt.Sprintf("line %d: merged %v, the oldest real tick is carried by value %d", i, res, best))
+						break
+					}
+				}
+				if len(res) != n {
+					hv.Fail("merge-pointwise", caseJSON(), fmt.Sprintf("length %d after merging copies of length %d", len(res), n))
+				} else if reports != wantReports {
+					hv.Fail("merge-pointwise", caseJSON(), fmt.Sprintf("%d reports for %d all-mark lines", reports, wantReports))
+				}
+			}
 			strs := make([]string, len(res))
 			for i, x := range res {
 				strs[i] = fmt.Sprint(x)
